@@ -371,7 +371,7 @@ def finish(ctx: Ctx, level_text_trusted: list[str], rule: str, checker_cmd: str)
             if f["signature"] in seen:
                 continue
             seen.add(f["signature"])
-            h = hashlib.sha1(json.dumps(f["replay"], sort_keys=True, default=str).encode()).hexdigest()[:10]
+            h = hashlib.sha1((f["signature"] + json.dumps(f["replay"], sort_keys=True, default=str)).encode()).hexdigest()[:10]
             path = replays / f"{ctx.pid}-{h}.json"
             path.write_text(json.dumps({"property": ctx.pid, "signature": f["signature"], "what": f["what"], "seed": ctx.seed,
                                         "broken_obligations": ctx.broken, "replay": f["replay"]}, indent=1, default=str))
